@@ -5,7 +5,9 @@ random trivia at every soft boundary, optional ';' after END_IF."""
 TRIVIA = [" ", "  ", "\t", "\n", "\r\n", " \n ", "\n\n", " (* c *) ", "(* c *)", " (* multi\nline *) ",
           "(* ( *)", " (* ) *) ", "(* * *)", " (* a (* b *) ", "(*x*)(*y*)", " (* café ü *) ", "\n\t(* - *)\n",
           " (**) ", "\t \t", "(***)", " (* x **) ", "(* a * b *)", " (*) x *) ",
-          " (* mehr\nzeilig ü€ *) ", "   (* ü\r\n é日本 *) ", "\n  (* a\n\n  b é *)"]
+          " (* mehr\nzeilig ü€ *) ", "   (* ü\r\n é日本 *) ", "\n  (* a\n\n  b é *)",
+          # line comments (to the end of the line; the line break belongs to them)
+          " // c\n", " // é ü\r\n", "\n// x (* y\n", " //\n", "\t// a // b\n  "]
 TRIVIA_FF = ["\f", " \f "]
 
 
@@ -63,3 +65,28 @@ def respell(tokens, rng, kwcase=False, tkwcase=False, idcase=False, trivia=False
         out.append(text)
         first = False
     return "".join(out)
+
+
+OSCAT_OPEN = "(*@KEY@:DESCRIPTION*)"
+OSCAT_CLOSE = "(*@KEY@:END_DESCRIPTION*)"
+OSCAT_TEXTS = ["version 1.0\t1. jan. 2000\nfirst unit of the export", "it's the block's description: 100% free text ?",
+               "x := (1 + ;\nEND_TYPE", "caf\u00e9 \u00fc\u20ac \U0001F642 units", "", " ", "a *) b", "mentions (*@KEY@:DESCRIPTION*) itself"]
+
+
+def with_oscat(tokens, starts, rng):
+    """The token list with OSCAT description blocks in front of some top-level declarations (the way OSCAT exports
+    look): the first block of the file holds free text, which the preprocessor blanks; later blocks are empty."""
+    if not starts:
+        return tokens
+    n = min(len(starts), rng.randint(1, 3))
+    where = sorted(rng.sample(starts, n))
+    out = []
+    rank = 0
+    for i, t in enumerate(tokens):
+        if i in where:
+            body = rng.choice(OSCAT_TEXTS[:6]) if rank == 0 else rng.choice(["", "\n", " "])
+            sep = rng.choice(["\n", " ", ""])
+            out.append((OSCAT_OPEN + sep + body + sep + OSCAT_CLOSE, "op", False))
+            rank += 1
+        out.append(t)
+    return out
